@@ -1,6 +1,9 @@
 package poolsim
 
 import (
+	"fmt"
+	"strings"
+
 	"go.sia.tech/core/types"
 	"verif/harness/internal/chaingen"
 	"verif/harness/internal/rng"
@@ -113,6 +116,12 @@ func corruptV2(t *types.V2Transaction) {
 func (r *Runner) Fabricate(g *rng.R, flavor string) *Submission {
 	tip := r.Tip
 	s := &Submission{Flavor: flavor, Basis: r.W.Info(tip).Index}
+	slackArg := -1
+	if strings.HasPrefix(flavor, "exact-fill-v2:") {
+		fmt.Sscanf(flavor[len("exact-fill-v2:"):], "%d", &slackArg)
+		flavor = "exact-fill-v2"
+		s.Flavor = flavor
+	}
 	v2 := len(flavor) > 3 && flavor[len(flavor)-3:] == "-v2"
 	s.V2 = v2
 	if v2 && !r.v2ok() || !v2 && flavor != "builder" && !r.v1ok() {
@@ -407,6 +416,9 @@ func (r *Runner) Fabricate(g *rng.R, flavor string) *Submission {
 			return t
 		}
 		slack := uint64(g.Intn(30)) // 0..11 overflows a block that carries MineBlock's own transaction uncounted
+		if slackArg >= 0 {
+			slack = uint64(slackArg)
+		}
 		s.V2 = true
 		add2(mk(900000, 1), Meta{POK: true})
 		add2(mk(900000, 2), Meta{POK: true})
